@@ -144,7 +144,8 @@ def gen_enum_driver(prog, header, jobs):
     """jobs: list of {"id", "t", "ps", "alphabet": [bytes], "maxlen": int|None, "budget": int}.
 
     For each job the driver walks all byte strings over `alphabet` depth-first up to length
-    min(MaxSizeInBytes + 2, maxlen), shrinking the alphabet until the tree fits `budget`, and prints one
+    min(MaxSizeInBytes + 2, maxlen) -- exhaustively for the first Ls positions, then one chain per string up to the
+    full length; alphabet and Ls shrink until the tree fits `budget` -- and prints one
     JSON object per job on its own line:  {"id":..,"t":..,"ps":[..],"ev":[{"e":"arr","n":..,"b":..,"o":[..]},..]}
     """
     j = prog.to_json() if isinstance(prog, vp.Program) else prog
@@ -159,7 +160,14 @@ static unsigned long long tree_size(size_t a, size_t L) { unsigned long long s =
         src.append("  size_t L = static_cast<size_t>(%s::%s::MaxSizeInBytes()) + 2;" % (ns_of(j), tn))
         if job.get("maxlen") is not None:
             src.append("  if (L > %d) L = %d;" % (job["maxlen"], job["maxlen"]))
-        src.append("  while (tree_size(alpha.size(), L) > %dull) { if (alpha.size() > 2) alpha.pop_back(); else --L; }" % job["budget"])
+        # all strings over the alphabet for the first Ls positions (half of the budget); every stride-th of them is then
+        # continued by a single chain (fill byte alpha[0]) up to the full length L (other half), so that complete and
+        # oversized buffers of long structures are reached as well
+        src.append("  size_t Ls = L;")
+        src.append("  while (tree_size(alpha.size(), Ls) > %dull) { if (alpha.size() > 2) alpha.pop_back(); else --Ls; }" % max(1, job["budget"] // 2))
+        src.append("  unsigned long long leaves = 1; for (size_t i = 0; i < Ls && leaves < (1ull<<40); ++i) leaves *= alpha.size();")
+        src.append("  unsigned long long stride = L > Ls ? (leaves * (L - Ls) + %dull - 1) / %dull : 1; if (stride == 0) stride = 1;" % (max(1, job["budget"] // 2), max(1, job["budget"] // 2)))
+        src.append("  unsigned long long leafno = 0; bool chain = false;")
         src.append('  std::fprintf(f, "{\\"id\\":%d,\\"t\\":\\"%s\\",\\"ps\\":%s,\\"ev\\":[");' % (job["id"], tn, json.dumps(job["ps"])))
         src.append("  std::vector<unsigned char> cur; std::vector<size_t> idx; bool firstev = true; Buf buf(L);")
         src.append("  // depth-first: visit cur, then children")
@@ -169,12 +177,13 @@ static unsigned long long tree_size(size_t a, size_t L) { unsigned long long s =
         src.append("    { auto v = %s;" % make_view_expr(j, tn, job["ps"], "buf.p", "buf.n"))
         src.append('      std::fprintf(f, "%s{\\"e\\":\\"arr\\",\\"n\\":%ld,\\"b\\":%d,\\"o\\":[", firstev ? "" : ",", parent_len, (int)lastb);')
         src.append("      Out o{f, true}; %s(v, \"\", o); std::fprintf(f, \"]}\"); firstev = false; }" % _obs_fn_name(tn))
-        src.append("    if (cur.size() < L) { idx.push_back(0); parent_len = (long)cur.size(); lastb = alpha[0]; cur.push_back(alpha[0]); continue; }")
+        src.append("    if (cur.size() == Ls) chain = (leafno++ % stride == 0);")
+        src.append("    if (cur.size() < Ls || (cur.size() < L && chain)) { idx.push_back(0); parent_len = (long)cur.size(); lastb = alpha[0]; cur.push_back(alpha[0]); continue; }")
         src.append("    // backtrack")
         src.append("    for (;;) {")
         src.append("      if (idx.empty()) goto done;")
         src.append("      size_t &ix = idx.back();")
-        src.append("      if (ix + 1 < alpha.size()) { ++ix; cur.back() = alpha[ix]; parent_len = (long)cur.size() - 1; lastb = alpha[ix]; break; }")
+        src.append("      if (ix + 1 < (cur.size() - 1 < Ls ? alpha.size() : 1)) { ++ix; cur.back() = alpha[ix]; parent_len = (long)cur.size() - 1; lastb = alpha[ix]; break; }")
         src.append("      idx.pop_back(); cur.pop_back();")
         src.append("    }")
         src.append("  }")
